@@ -78,3 +78,20 @@ Example C04_example :
   let a := mkCmd 0 [0] [0] false in let b := mkCmd 1 [1] [1] true in let c := mkCmd 2 [0; 1] [0; 1] false in
   check_linearisation [a; b; c] [b; a; c] = true /\ check_linearisation [a; b; c] [c; a; b] = false.
 Proof. split; vm_compute; reflexivity. Qed.
+
+(* Any legal linearisation is reachable from the input by swapping adjacent independent commands (commands that share
+   no mode and no measured-parameter link) ... *)
+Theorem C04_toposort_swap_equiv : forall A deps (ls out : list A),
+  NoDup ls -> (forall c, In c ls -> has_deps A deps c = true) -> toposort A deps ls out -> sweq A deps ls out.
+Proof. exact toposort_sweq. Qed.
+Print Assumptions C04_toposort_swap_equiv.
+
+(* ... hence every semantics (composition in any monoid of physical maps) under which independent commands commute is
+   invariant under every re-ordering the library may perform. *)
+Theorem C04_toposort_semantics : forall A deps (M : Type) (mul : M -> M -> M) (e : M),
+  (forall x y z, mul x (mul y z) = mul (mul x y) z) ->
+  forall sem : A -> M, (forall a b, independent A deps a b -> mul (sem b) (sem a) = mul (sem a) (sem b)) ->
+  forall ls out, NoDup ls -> (forall c, In c ls -> has_deps A deps c = true) -> toposort A deps ls out ->
+  sem_list A M mul e sem out = sem_list A M mul e sem ls.
+Proof. intros A deps M mul e Ha sem Hc ls out. exact (toposort_sem A deps M mul e Ha sem Hc ls out). Qed.
+Print Assumptions C04_toposort_semantics.
